@@ -184,12 +184,12 @@ def native_function(name, params, outputs=1, out_keys=None, vector=False):
     return f
 
 
-def native_model_function(name, params, ret="float", n_labels=None):
+def native_model_function(name, params, ret="float", n_labels=None, salt=0):
     """numeric stand-in for a user model function (native mode): jax-traceable, deterministic from
     the name; float: affine + one product; bool: a mixture of True/False; int: a label in [0, n)."""
     import zlib
 
-    seed = zlib.crc32(name.encode())
+    seed = zlib.crc32(name.encode()) ^ ((int(salt) * 2654435761) & 0xFFFFFFFF)
     cs = [((seed >> (3 * i)) % 7 + 1) / 4.0 * (1 if (seed >> i) & 1 else -1) for i in range(len(params) + 1)]
     lin = " + ".join([repr(cs[0])] + [f"{cs[i + 1]!r} * {p}" for i, p in enumerate(params)])
     if ret == "float":
